@@ -76,10 +76,26 @@ class AuthzStream(Stream):
             "answered without error; distinct = distinct op line")
 
     def nontrivial(self, op, impl):
-        if not op.startswith("req\t"):
+        if not op.startswith(("req\t", "reqns\t")):
             return False
         f = impl.split("|")
         return len(f) == 4 and (f[0] == "ok" or f[1] != "-")
+
+    # `reqns` = a request path with a leading slash made inside a child namespace: not namespace-relative, the ACL and
+    # the router refuse it in a different order than in the root namespace; both refusals are the same class here
+    @staticmethod
+    def _refusal(op, res):
+        if op.startswith("reqns\t"):
+            for c in ("denied|", "nopath|"):
+                if res.startswith(c):
+                    return "refused|" + res[len(c):]
+        return res
+
+    def norm_impl(self, op, impl):
+        return self._refusal(op, impl.split("!VIOL:", 1)[0])
+
+    def norm_model(self, op, model):
+        return self._refusal(op, model)
 
     def case_predicate(self, ops, impls):
         mounts, pols, toks, disabled = [], {}, {"root": {"pols": ["root"], "n": 0, "kind": "root", "revoked": False,
@@ -103,7 +119,7 @@ class AuthzStream(Stream):
                 toks[f[1]]["expired"] = True
             elif k == "ent-disable":
                 (disabled.add if f[2] == "1" else disabled.discard)(f[1])
-            elif k == "req":
+            elif k in ("req", "reqns"):
                 why = self.check_req(f, impl, mounts, pols, toks, disabled)
                 if why:
                     fails.append({"what": why[0], "signature": why[1], "op": op, "impl": impl})
